@@ -30,14 +30,14 @@ META = dict(
          "operators; (b) event graph over evaluation histories on the real module-level parser stack: every history of "
          "depth<=3 (thorough 4) over 8 valid expressions + 5 failing ones (truncated, unbalanced, invalid identifier, "
          "division by zero, empty): every valid expression must evaluate, in every state, to its value in the empty "
-         "history; (c) validator: every token string of length<=3 over 16 tokens (numbers, statistics, operators, "
-         "parentheses, 3 rejects) joined by single spaces: accepted iff every token is allowed, else ValueError; (d) "
+         "history; (c) validator: every token string of length<=3 over 17 tokens (numbers, statistics, operators, "
+         "parentheses, 3 rejects and the empty token, i.e. a leading / trailing / doubled space) joined by single spaces: accepted iff every token is allowed, else ValueError; (d) "
          "creator: synthetic time-constant NetCDF-3 climatologies (2-d and 3-d, 4 cell patterns incl. NaN / negative / "
          "zero-sum) x every index-aligned bounding box x 4 date ranges x 3 expression sets: spans must equal the "
          "expressions on min/max/mean/std of the in-box cells. non-trivial = expression with an operator / history with "
          "a failing step / token string with a rejected token / box smaller than the grid",
     bounds={"quick": {"expr_depth": 2, "history_depth": 3, "token_len": 3}, "thorough": {"expr_depth": 3, "history_depth": 4, "token_len": 3}},
-    not_judged=["expressions whose reference evaluation divides by zero", "full-year (365 day) date ranges", "double spaces in the validator input"],
+    not_judged=["expressions whose reference evaluation divides by zero", "full-year (365 day) date ranges", "tabs / other whitespace in the validator input"],
     assumptions=["relative tolerance 1e-12 for expression values, 1e-9 for generated spans (cubic spline of a constant)"],
 )
 
@@ -148,7 +148,7 @@ def check_history(case):
 
 
 # ---------------------------------------------------------------- (c) validator
-TOKENS = ("1", "-2.5", "1e3", "mean", "min", "max", "std", "+", "-", "*", "/", "(", ")", "foo", "^", "mean+1")
+TOKENS = ("1", "-2.5", "1e3", "mean", "min", "max", "std", "+", "-", "*", "/", "(", ")", "foo", "^", "mean+1", "")
 ALLOWED = set(TOKENS[:13])
 
 
